@@ -824,12 +824,13 @@ class SVG:
         # https://github.com/googlefonts/nanoemoji/issues/275
         _del_attrs(self.svg_root, *_INHERITABLE_ATTRIB)
 
-        self._remove_orphaned_gradients()
-
         # After simplification only gradient defs should be referenced
         # It's illegal for picosvg to leave anything else in defs
         for unused_el in [el for el in defs if not _is_gradient(el)]:
             defs.remove(unused_el)
+
+        # only now: a shape that was only sitting in defs must not keep a gradient alive
+        self._remove_orphaned_gradients()
 
         self.elements = None  # force elements to reload
 
